@@ -97,7 +97,7 @@ def run(chk):
         "obligations": pr["obligations"], "discharged": pr["discharged"], "axioms": pr["axioms"],
         "checker_cmd": "cd lean && lake build %s" % MODULE, "trusted_base": TRUSTED_BASE, "forbidden_constructs": pr["forbidden_constructs"],
         "evaluations": total, "distinct_nontrivial": nontrivial, "exhaustive": True, "files": len(cases), "files_with_inner_magic": inner,
-        "rule": "EVERY strict prefix (every byte length 0..len-1) of valid files of 5 structs x 3 codecs, plus crafted files whose string column holds a complete footer+length (with and without the magic), opened and iterated by the generated reader; non-trivial = distinct (file, prefix length) rejected with an error",
+        "rule": "EVERY strict prefix (every byte length 0..len-1) of valid files of 8 structs x 3 codecs, plus crafted files whose string column holds a complete footer+length (with and without the magic), opened and iterated by the generated reader; non-trivial = distinct (file, prefix length) rejected with an error",
         "samples": [cases[0].key()[:200], cr[0].key()[:200]],
         "tie": "reader model's accept/reject verdict per prefix length = generated reader's",
         "tie_disagreements": len(tie_breaks), "property_failures_on_impl": len(prop_fail),
